@@ -356,6 +356,27 @@ class Explorer:
             return ast.Call(func=ast.Name(id=BIG, ctx=ast.Load()), args=[ast.Constant(value=unparse(node)[:60])], keywords=[])
         return out
 
+    def _never_none(self, call: ast.Call) -> bool:
+        if not self._stack:
+            return False
+        try:
+            tg = self.prog.resolve_call(self._stack[-1], call)
+        except Exception:  # noqa: BLE001
+            return False
+        fs = tg.funcs() if getattr(tg, "precise", True) else []
+        if len(fs) != 1 or tg.classes():
+            return False
+        f = fs[0]
+        if f.is_abstract or any(isinstance(x, (ast.Yield, ast.YieldFrom)) for x in ast.walk(f.node)):
+            return False
+        from .inline import _always_exits
+        from .model import walk_no_nested as _wnn
+
+        rets = [x for x in _wnn(f.node) if isinstance(x, ast.Return)]
+        if not rets or any(r.value is None or (isinstance(r.value, ast.Constant) and r.value.value is None) or isinstance(r.value, (ast.IfExp, ast.Name, ast.BoolOp)) for r in rets):
+            return False
+        return _always_exits(list(f.node.body))
+
     def _module_scalar(self, name: str):
         """Constant node for a module-level name bound once to a str / bytes / int / float scalar (directly or computed
         from such constants), None otherwise; parameters and locals of the current function shadow it"""
@@ -721,6 +742,10 @@ class Explorer:
                 return self.facts[txt]
             if isinstance(e, ast.Constant):
                 return bool(e.value)
+            if isinstance(e, ast.Compare) and len(e.ops) == 1 and isinstance(e.ops[0], (ast.Is, ast.IsNot)) and isinstance(e.comparators[0], ast.Constant) and e.comparators[0].value is None and isinstance(e.left, ast.Call):
+                # the result of a package function that returns a value on every path is never None
+                if self._never_none(e.left):
+                    return isinstance(e.ops[0], ast.IsNot)
             if isinstance(e, ast.UnaryOp) and isinstance(e.op, ast.Not):
                 v = tv(e.operand)
                 return None if v is None else (not v)
